@@ -54,6 +54,35 @@ corpus_types! {
     struct SArrays { a0: [u8; 0], a1: [u16; 1], a4: [i32; 4], t6: (u8, i8, u16, i16, u32, i32) }
 }
 
+/// explicit discriminants that are not in declaration order (serde numbers variants by position)
+#[derive(Serialize, Deserialize, Debug, Clone, PartialEq, Schema)]
+pub enum SLevel {
+    High = 2,
+    Low = 1,
+    Off = 0,
+    Mid = 7,
+}
+impl HasShape for SLevel {
+    fn shape() -> Shape {
+        Shape::Enum(
+            "SLevel",
+            ["High", "Low", "Off", "Mid"].iter().map(|n| VariantShape { name: n, data: VData::Unit }).collect(),
+        )
+    }
+}
+/// raw-identifier field names
+#[derive(Serialize, Deserialize, Debug, Clone, PartialEq, Schema)]
+pub struct SRaw {
+    pub r#type: u8,
+    pub r#match: Option<u16>,
+    pub plain: String,
+}
+impl HasShape for SRaw {
+    fn shape() -> Shape {
+        Shape::Struct("SRaw", vec![("type", Shape::U8), ("match", Shape::Option(Box::new(Shape::U16))), ("plain", Shape::Str)])
+    }
+}
+
 #[derive(Serialize, Deserialize, Debug, Clone, PartialEq, Schema)]
 pub struct SGen<T> {
     pub a: T,
@@ -95,7 +124,8 @@ macro_rules! for_each_shaped_schema_type {
         $m!($crate::corpus::SUnit); $m!($crate::corpus::SNew); $m!($crate::corpus::STup); $m!($crate::corpus::SEmptyTup); $m!($crate::corpus::SNamed);
         $m!($crate::corpus::SEmptyNamed); $m!($crate::corpus::SUnsorted); $m!($crate::corpus::SBasic); $m!($crate::corpus::SData); $m!($crate::corpus::SNested); $m!($crate::corpus::SColls);
         $m!($crate::corpus::SStd); $m!($crate::corpus::SHeap7); $m!($crate::corpus::SOpts); $m!($crate::corpus::SArrays);
-        $m!($crate::corpus::SGen<u16>); $m!($crate::corpus::SGen<$crate::corpus::SData>);
+        $m!($crate::corpus::SGen<u16>); $m!($crate::corpus::SGen<$crate::corpus::SData>); $m!($crate::corpus::SLevel); $m!($crate::corpus::SRaw);
+        $m!(Vec<$crate::corpus::SLevel>); $m!(Vec<$crate::corpus::SUnit>); $m!(Vec<[u8; 0]>);
     };
 }
 
